@@ -124,6 +124,11 @@ func (i Interval) Length() float64 {
 	if l > 0 {
 		return l
 	}
+	if !i.IsEmpty() {
+		// A non-empty inverted interval that is shorter than the rounding
+		// unit of 2π; only the empty interval has a negative length.
+		return 0
+	}
 	return -1
 }
 
